@@ -147,6 +147,14 @@ def cases(tier, seed):
                     if not quick:
                         out.append(mk(tree_plain(L, o), "plain", L, o, "blake3", "unknown", extra + ["--cache"],
                                       repeat=2, tr=[op, mode]))
+    # length-changing transforms on trees with hard links (one hash per file id is shared by all its names)
+    for L in (10, 5000):
+        for op in ("shrink", "double", "prefix"):
+            for ml in ([], ["-H"]):
+                extra = G.transform_args(op, "pipe") + ["--rf-over", "0"] + ml
+                c = mk(tree_hard(L, L - 1), "plain", L, L - 1, "metro", "ssd", extra, tr=[op, "pipe"])
+                c["meta"]["hard_links"] = True
+                out.append(c)
     if not quick:
         # HDD/unknown suffix stage needs >= 64 MiB
         big = 64 * 1024 * 1024
